@@ -207,8 +207,9 @@ def reserveExc (m : Machine) (r : Nat) (amt : Int) :
     match decr res r amt with
     | none => .error .keyError
     | some res' =>
-      if !m.ok c then .error .indexError          -- `machine[location]` (defect F16 region)
-      else if over res' then .error .insufficient
+      -- `if location in machine and overallocated(machine[location])`: the entry of a dead chip is
+      -- reduced like every other one but never decides over-allocation
+      if m.ok c && over res' then .error .insufficient
       else reserveExc m r amt (done ++ [(c, res')]) rest
 
 def applyReserve (m : Machine) (r : Nat) (amt : Int) : Option Chip → M Machine
